@@ -211,11 +211,22 @@ def gen_lp(rng, ntargets=None, namelen=None):
     return s
 
 
+# characters that text-handling code tends to treat specially: non-ASCII, and everything str.splitlines()
+# regards as a line boundary besides \n
+WEIRD = '\u00e9\u4e2d\u0085\u2028\u2029\x0b\x0c\x1c\x1d\x1e\r\t\x7f\U0001F600'
+
+
+def weird_text(rng, n, alphabet):
+    return ''.join(rng.choice(WEIRD) if rng.random() < .3 else rng.choice(alphabet) for _ in range(n))
+
+
 def gen_json_value(rng, depth=0):
     k = rng.randrange(7 if depth < 3 else 4)
     if k == 0:
         return rng.randrange(-1000, 100000)
     if k == 1:
+        if rng.random() < .2:
+            return weird_text(rng, rng.randrange(1, 12), ALNUM + ' ":{}')
         return rtext(rng, rng.randrange(0, 12), ALNUM + ' ":{}[]\\,\'/')
     if k == 2:
         return rng.choice([True, False, None, 1.5])
@@ -223,7 +234,8 @@ def gen_json_value(rng, depth=0):
         return rtext(rng, rng.randrange(1, 6))
     if k == 4:
         return [gen_json_value(rng, depth + 1) for _ in range(rng.randrange(0, 4))]
-    return {rtext(rng, rng.randrange(1, 8), ALNUM + ' ":{}\\'): gen_json_value(rng, depth + 1)
+    return {(weird_text(rng, rng.randrange(1, 8), ALNUM + ' ":') if rng.random() < .1 else
+             rtext(rng, rng.randrange(1, 8), ALNUM + ' ":{}\\')): gen_json_value(rng, depth + 1)
             for _ in range(rng.randrange(0, 4))}
 
 
@@ -240,7 +252,7 @@ def gen_ud(rng, route=None, creator='O', sid='UD'):
             doc = gen_json_value(rng, 1) if rng.random() < .3 else \
                 {rtext(rng, rng.randrange(1, 9), ALNUM + ' :"{\\'): gen_json_value(rng, 1)
                  for _ in range(rng.randrange(1, 5))}
-            raw = json.dumps(doc).encode('utf-8')
+            raw = json.dumps(doc, ensure_ascii=rng.random() < .6).encode('utf-8')
             raw += b'\x00' * ((-len(raw)) % 4)
             payload = list(raw)
         elif route == 'text':
